@@ -981,14 +981,17 @@ func (m *Manager) recoverFromWAL() error {
 
 	// Add recovered memtables to the pool
 	for i, memTable := range memTables {
-		if i == len(memTables)-1 {
-			// The last memtable becomes the active one
-			m.memTablePool.SetActiveMemTable(memTable)
-		} else {
-			// Previous memtables become immutable
+		if i < len(memTables)-1 {
+			// Previous memtables become immutable and are queued for flushing
 			memTable.SetImmutable()
 			m.immutableMTs = append(m.immutableMTs, memTable)
 		}
+
+		// Every recovered table passes through the pool in log order: installing
+		// the next one moves its predecessor to the pool's immutable tables, so
+		// the earlier tables stay readable until they are flushed, and the last
+		// memtable ends up as the active one
+		m.memTablePool.SetActiveMemTable(memTable)
 	}
 
 	// Record recovery stats
